@@ -999,7 +999,9 @@ func (w *blobWorld) doChunked(who string, op blobOp) {
 		}
 	}
 	cerr := ck.Close()
-	complete := true
+	// the session stored the blob if every chunk of the tiling was accepted and Close did not object
+	// (os.ErrInvalid: Close of a Chunker for a blob that was in the cache already)
+	complete := cerr == nil || errors.Is(cerr, os.ErrInvalid)
 	for _, ok := range okc {
 		complete = complete && ok
 	}
